@@ -93,6 +93,29 @@ def run(res):
                 jobs.append(dict(base, id="b", steps=[{"create": d0}, {"bmap": f, "data": d1}]))
                 jobs.append(dict(base, id="f", steps=[{"create": d1}]))
                 meta.append((j, f, d1, B[f]))
+    # a field that is not advertised must be answered with `false` (the caller then updates through the tree): also for field
+    # names that exist on Object.prototype
+    proto_jobs = []
+    proto_meta = []
+    for rr in results[:40]:
+        j = rr["job"]
+        run0 = rr["run"]
+        if run0.get("error") or j.get("max_level", 0) >= 3:
+            continue
+        B = run0.get("B") or {}
+        for name in ("valueOf", "toString", "constructor", "hasOwnProperty", "__proto__", "zz_not_a_field"):
+            if name in B:
+                continue
+            proto_jobs.append({"op": "run", "bundle": j["bundle"], "path": j["path"], "slotValues": j.get("slotValues"), "id": "pb",
+                               "steps": [{"create": j["datas"][0]}, {"bmap": name, "data": j["datas"][0]}]})
+            proto_meta.append((j, name))
+    for (j, name), o in zip(proto_meta, node_jobs(proto_jobs, shards=12)):
+        if o.get("error") or o.get("bmapOk") is not False:
+            found += 1
+            if found <= 6:
+                res.violation("the binding map answers for field %r, which it does not advertise (%s): a change of that field would be "
+                              "treated as handled" % (name, o.get("error") or "bindingMapUpdate returned true"),
+                              {"src": j["src"], "field": name, "advertised": sorted((rr["run"].get("B") or {}).keys())})
     out = node_jobs(jobs, shards=12)
     n_eval = 0
     nontrivial = 0
